@@ -8,6 +8,7 @@
 -/
 import PS.Proofs.StepInv
 import PS.Proofs.InitMem
+import PS.Spec.Fragment
 namespace PS
 
 /-- the meaning of an operand: all of its assertions hold -/
@@ -38,10 +39,6 @@ def ConnMeaning (ρ : Env) : CBody → Prop
   | .ifThenElse c os1 os2 => (c.eval ρ → ∀ o ∈ os1, Holds o ρ) ∧ (¬ c.eval ρ → ∀ o ∈ os2, Holds o ρ)
   | .fromExpr f => f.eval ρ
   | _ => True
-
-def CBody.isConn : CBody → Bool
-  | .not_ .. | .or_ .. | .and_ .. | .xor_ .. | .implies .. | .ifThenElse .. | .fromExpr .. => true
-  | _ => false
 
 /-- **C10 (connectives).** The raw assertion of a connective is equivalent to the boolean
     combination of its operands' meanings — exactly, in both directions. -/
